@@ -574,9 +574,74 @@ def rule_cond_key(ctx, py):
     ctx.floor(R, 3)
 
 
+def rule_defaults(ctx, py, R="C12.DEFAULTS"):
+    """C12.DEFAULTS -- omitted keys take the documented defaults, which are the constructor's: a reader hands the constructor
+    only what it read.  (1) Every entry a reader puts into the constructor's argument table is computed from the dictionary it
+    reads (its own units system, resolved from the parent's, and empty containers aside): an entry made up for an absent key
+    replaces the constructor's default by the reader's.  (2) The writer of a per-environment table returns the table: one entry per
+    key it was given, never a single value standing for all of them (a key that is absent means 'default', not 'the same')."""
+    from .. import pysym
+    n = 0
+    for rq, wq, cq in PAIRS:
+        f = py.fn(rq)
+        dname = pyfe.params(f)[0]
+        # names that (may) carry data of the dictionary: assigned, somewhere, from it or from another such name
+        from_d = {dname}
+        for _ in range(6):
+            for a_ in ast.walk(f):
+                tg = a_.targets if isinstance(a_, ast.Assign) else [a_.target] if isinstance(a_, (ast.For, ast.AugAssign)) else []
+                src_ = a_.value if isinstance(a_, (ast.Assign, ast.AugAssign)) else a_.iter if isinstance(a_, ast.For) else None
+                if src_ is None or not ({x.id for x in ast.walk(src_) if isinstance(x, ast.Name)} & from_d):
+                    continue
+                for t_ in tg:
+                    for x in ast.walk(t_):
+                        if isinstance(x, ast.Name) and isinstance(x.ctx, ast.Store) and x.id != "da":
+                            from_d.add(x.id)
+        for st in ast.walk(f):
+            if not (isinstance(st, ast.Assign) and isinstance(st.targets[0], ast.Subscript) and
+                    pyfe.src(st.targets[0].value) == "da" and isinstance(st.targets[0].slice, ast.Constant)):
+                continue
+            k = st.targets[0].slice.value
+            if k == "units_system":
+                continue
+            v = pysym.reach(st.value, st, f, stop={dname, "da"})
+            names = {x.id for x in ast.walk(v) if isinstance(x, ast.Name)}
+            empty = isinstance(v, (ast.List, ast.Dict, ast.Tuple)) and not (getattr(v, "elts", None) or getattr(v, "keys", None)) or \
+                (isinstance(v, ast.Constant) and v.value is None)
+            n += 1
+            ctx.check(bool(names & from_d) or empty, R, st, rq, "da[%r] <- %s" % (k, pyfe.src(v)[:60]), "read from the dictionary",
+                      "the reader sets `%s` to `%s`, which does not come from the dictionary: when the key is omitted the object is "
+                      "built with the reader's value instead of the constructor's documented default" % (k, pyfe.src(v)[:60]))
+    g = py.fn("value_processing.format_unitvar_for_save")
+    rets = [r for r in ast.walk(g) if isinstance(r, ast.Return) and r.value is not None]
+    tables = {st.targets[0].id for st in ast.walk(g) if isinstance(st, ast.Assign) and isinstance(st.targets[0], ast.Name) and
+              isinstance(st.value, ast.Dict)}
+    filled = {pyfe.src(st.targets[0].value) for st in ast.walk(g) if isinstance(st, ast.Assign) and
+              isinstance(st.targets[0], ast.Subscript)}
+    for r in rets:
+        # returns that stand inside the branch that builds a table must return that table
+        p_ = pyfe.parent(r)
+        inside = False
+        while p_ is not None and p_ is not g:
+            if isinstance(p_, ast.If) and any(isinstance(x, ast.Assign) and isinstance(x.targets[0], ast.Name) and
+                                              x.targets[0].id in tables for b_ in (p_.body, p_.orelse) for x in b_
+                                              if any(r is y for z in b_ for y in ast.walk(z))):
+                inside = True
+            p_ = pyfe.parent(p_)
+        if not inside:
+            continue
+        n += 1
+        ctx.check(isinstance(r.value, ast.Name) and r.value.id in tables & filled, R, r, g._qual, "return %s" % pyfe.src(r.value)[:40],
+                  "a per-environment table is written as a table", "a per-environment table is written as `%s`, one value for all "
+                  "keys: read back, the environments the table did not name get that value instead of the default" %
+                  pyfe.src(r.value)[:40])
+    ctx.floor(R, 20)
+
+
 def run(ctx):
     py = ctx.py
     rule_unitstr(ctx, py)
+    rule_defaults(ctx, py)
     from . import c18
     c18.rule_value_str(ctx, py, "C12.UNITSTR")
     c18.rule_value_float(ctx, py, "C12.UNITSTR")
